@@ -9,6 +9,7 @@ import (
 	"sort"
 	"strings"
 	"sync"
+	"sync/atomic"
 	"time"
 
 	"github.com/IrineSistiana/mosproxy/verif/internal/dnsclient"
@@ -195,7 +196,8 @@ func runC13(c *Ctx) {
 	var mu sync.Mutex
 	confirmations := 0
 	for _, listener := range listeners {
-		parallelFor(nConn, 12, func() bool { return c.ViolationCount() >= 10 || !b.Proxy.Alive() }, func(i int) {
+		var broken atomic.Bool // a violation on this listener: further connections would only wait out their time-outs
+		parallelFor(nConn, 12, func() bool { return c.ViolationCount() >= 10 || !b.Proxy.Alive() || broken.Load() }, func(i int) {
 			r := gen.New(c.Seed, "c13/"+listener, i)
 			cc, stream, ids, qs, tags := c13BuildStream(r, listener, i, ups)
 			sig, what, out := c13RunConn(b, cc, stream, ids, qs, tags, 10*time.Second)
@@ -228,6 +230,7 @@ func runC13(c *Ctx) {
 				}
 			}
 			if sig != "" {
+				broken.Store(true)
 				cc.Stream = hex.EncodeToString(stream)
 				c.Violation(sig+":"+listener, fmt.Sprintf("%s, k=%d, %d cuts: %s", listener, cc.K, len(cc.Cuts), what), cc)
 				return
